@@ -203,7 +203,12 @@ fn exec_reads(sc: &Scenario) -> Outcome {
     let yaml: serde_yaml::Value = serde_yaml::from_str(&sc.rule_text).unwrap_or(serde_yaml::Value::Null);
     let ks = gen::key_set(&yaml);
     let shape = gen::rule_shape(&yaml);
+    let t_start = std::time::Instant::now();
     for sw in &sc.switch_sets {
+        if t_start.elapsed().as_secs() >= 6 {
+            stats.inc("heavy_scenarios_cut_short");
+            break;
+        }
         let seeds: Vec<u64> = if *sw == 0 {
             vec![0]
         } else {
